@@ -381,6 +381,10 @@ func CodecFor(proto string) XCodec {
 		return BoltV2{}
 	case "dubbo":
 		return Dubbo{}
+	case "tars":
+		return Tars{}
+	case "dubbo-thrift":
+		return DubboThrift{}
 	}
 	return nil
 }
